@@ -28,8 +28,14 @@ def model_case(rng):
     return schedgen.gen_c09_case(rng)[0]
 
 
-def ab_check(ctx, exe, name, base, describe):
-    """engine with `save; load` at every boundary k must answer like the uninterrupted run"""
+RESET_LOAD = ("save", "reset-director", "load")
+
+
+def ab_check(ctx, exe, name, base, describe, insert=("save", "load")):
+    """engine with `save; load` (or `save; reset-director; load`: an explicit director.Reset() of the host
+    between the two, the archive read brings the program back by name) at every boundary k must answer
+    like the uninterrupted run"""
+    n = len(insert)
     A, crashA, infoA = common.run_lines(exe, [], base, timeout=30)
     runs = 1
     if not crashA and (len(A) < 3 or not A[1].startswith("ok") or not A[2].startswith("ok")):
@@ -37,13 +43,13 @@ def ab_check(ctx, exe, name, base, describe):
     if crashA:
         return runs, ("crash", "uninterrupted run crashed: " + crashA, base, A, [], crashA, infoA)
     for k in range(3, len(base)):
-        lines = base[:k] + ["save", "load"] + base[k:]
+        lines = base[:k] + list(insert) + base[k:]
         B, crashB, infoB = common.run_lines(exe, [], lines, timeout=30)
         runs += 1
-        Bc = B[:k] + B[k + 2:] if len(B) >= k + 2 else B
+        Bc = B[:k] + B[k + n:] if len(B) >= k + n else B
         if crashB or Bc != A:
             j = common.first_diff(A, Bc)
-            why = ("save;load before line %d (`%s`): " % (k, base[k][:40])) + (
+            why = ("%s before line %d (`%s`): " % (";".join(insert), k, base[k][:40])) + (
                 "crash " + crashB if crashB else "line %d `%s` uninterrupted `%s` vs after load `%s`" % (
                     j, base[j][:40] if j is not None and j < len(base) else "?", A[j] if j is not None and j < len(A) else None,
                     Bc[j] if j is not None and j < len(Bc) else None))
@@ -64,6 +70,23 @@ def many_waiters_cases():
     return cases
 
 
+def explicit_reset_cases():
+    """`save; reset-director; script <same program>; load` at every boundary, machine vs engine: the composition of
+    C09_save_reset_load_roundtrip with an explicit director.Reset() of the host and a recompilation before the load
+    (`save; reset-director; load` without recompiling is compared engine vs engine only: the machine's `load`
+    takes the program from the present context, the engine reads it back by name)"""
+    cases = []
+    progs = [[[("thread", 1), ("wait", 250), ("mark", 1)], [("wait", 500), ("mark", 2)]],
+             [[("mark", 1), ("thread", 1), ("thread", 1), ("wait", 250), ("mark", 2), ("notify", 50, 1), ("wait", 125), ("mark", 3)],
+              [("waittill", 50, [1]), ("mark", 10), ("wait", 125), ("mark", 11)]]]
+    for pi, prog in enumerate(progs):
+        sl = schedgen.script_line(prog)
+        base = ["reset", sl, "callv m t0", "step 125", "step 125", "step 125", "step 125", "callv m t0", "step 1000"]
+        for k in range(3, len(base)):
+            cases.append(("xreset%d@%d" % (pi, k), base[:k] + ["save", "reset-director", sl, "load"] + base[k:]))
+    return cases
+
+
 def check(ctx):
     common.proof_side(ctx, PROPS_MODULE, PROPS_FILE)
     if ctx.tier == "thorough":
@@ -74,6 +97,9 @@ def check(ctx):
     d = Diff(ctx, PROP, exe, "sched")
     bad = d.run_batch(schedcheck.corpus_cases("C09"))
     bad += d.run_batch(many_waiters_cases())
+    xr = explicit_reset_cases()
+    bad += d.run_batch(xr)
+    ctx.stats["explicit_reset_recompile_cases"] = len(xr)
     rng = ctx.rng("model")
     batch = []
     for i in range(300 if quick else 20000):
@@ -99,7 +125,7 @@ def check(ctx):
     # (b) engine A/B at every boundary
     rng = ctx.rng("ab")
     rngx = ctx.rng("ab-expr")
-    runs = cases = fails = 0
+    runs = cases = fails = rcases = 0
     fixed = schedgen.c09_expr_ab_cases(quick)
     nrand = 25 if quick else 1500
     nexpr = 8 if quick else 500
@@ -117,16 +143,21 @@ def check(ctx):
             desc = base[1].split("## ", 1)[-1]
         r, res = ab_check(ctx, exe, "ab:%d" % i, base, desc)
         runs += r; cases += 1
+        if res is None and (i < 0 or i % 3 == 0):
+            # the same program with an explicit director.Reset() of the host between save and load
+            r, res = ab_check(ctx, exe, "abr:%d" % i, base, desc, insert=RESET_LOAD)
+            runs += r; rcases += 1
         if res and fails < 3:
             fails += 1
             kind, why, lines, out, ref, crash, info = res
             sig = crash if crash else "ab-diff"
             replay = common.save_replay(ctx, {"property": "C09", "kind": "engine-A/B", "why": why, "lines": lines,
                                               "with_save_load": out, "uninterrupted": ref, "crash": crash, "crash_info": info,
-                                              "script": desc, "signature": sig,
+                                              "script": desc, "signature": sig, "inserted": lines.index("load") - lines.index("save") + 1,
                                               "how_to_replay": "python3 tools/check.py C09 --replay <this file>"})
             ctx.violations.append({"signature": sig, "replay": replay, "why": why, "found_input": True})
-    ctx.oblige("engine with save;load at every boundary == uninterrupted engine (%d programs, %d runs)" % (cases, runs),
+    ctx.stats["ab_explicit_reset_programs"] = rcases
+    ctx.oblige("engine with save;load (and, for %d programs, save;reset-director;load) at every boundary == uninterrupted engine (%d programs, %d runs)" % (rcases, cases, runs),
                fails == 0, "%d programs differ" % fails, reported=True)
     sample = model_case(ctx.rng("sample"))
     ctx.samples = [[l if not l.startswith("script ") else "script m <hex> ## " + l.split("## ", 1)[1] for l in sample],
@@ -143,10 +174,11 @@ def replay(ctx, obj):
         exe = schedcheck.build_engine(ctx)
         lines = obj["lines"]
         k = lines.index("save")
-        base = lines[:k] + lines[k + 2:]
+        n = obj.get("inserted", 2)
+        base = lines[:k] + lines[k + n:]
         A, ca, _ = common.run_lines(exe, [], base)
         B, cb, info = common.run_lines(exe, [], lines)
-        Bc = B[:k] + B[k + 2:] if len(B) >= k + 2 else B
+        Bc = B[:k] + B[k + n:] if len(B) >= k + n else B
         for j, l in enumerate(base):
             a = A[j] if j < len(A) else None
             b = Bc[j] if j < len(Bc) else None
